@@ -46,7 +46,8 @@ FLOORS = {"quick": {"evaluations": 120, "pending_overlap_pairs": 150, "apdus_att
                     "slow_request_rounds": 1, "link_fault_rounds": 3,
                     "device_error_replies_in_fault_rounds": 3,
                     "state_replies_compared_with_device_state": 30,
-                    "advances_refused_by_device": 10, "late_answer_rounds_over_tcp": 2, "slow_sender_rounds": 2},
+                    "advances_refused_by_device": 10, "late_answer_rounds_over_tcp": 2, "slow_sender_rounds": 2,
+                    "failed_uiheartbeat_rounds": 1},
           "thorough": {"evaluations": 15000, "pending_overlap_pairs": 100000,
                        "apdus_attributed": 200000, "replies_matched": 15000, "distinct": 300,
                        "slow_request_rounds": 5, "link_fault_rounds": 60,
@@ -61,12 +62,14 @@ def shards(tier, seed):
                  "slow": [6.5] if i == 0 else [],
                  "fault_rounds": 1 if 1 <= i <= 3 else 0,
                  "late": [12.5] if i in (4, 5) else [],
-                 "slowsend_rounds": 1 if i in (6, 7) else 0} for i in range(8)]
+                 "slowsend_rounds": 1 if i in (6, 7) else 0,
+                 "uihb_tail": [7.5] if i == 2 else []} for i in range(8)]
     slow = {0: [6.5], 1: [12.0], 2: [32.0], 3: [62.0], 4: [125.0]}
     return [{"seed": seed * 100 + i, "rounds": 60, "max_clients": 16, "per_client": 4,
              "slow": slow.get(i, []), "fault_rounds": 6 if i >= 5 else 0,
              "late": [10.5, 12.5, 30.0, 61.0] if i >= 5 else [],
-             "slowsend_rounds": 3} for i in range(16)]
+             "slowsend_rounds": 3, "uihb_tail": [7.5, 12.0] if i < 5 else []}
+            for i in range(16)]
 
 
 class Recorder:
@@ -186,7 +189,8 @@ def expected_from_apdus(kind, apdus):
     return exp
 
 
-def run_round(acc, spec, rnd, rng, slow=None, fault=None, late=None, slowsend=False):
+def run_round(acc, spec, rnd, rng, slow=None, fault=None, late=None, slowsend=False,
+              uihb_tail=None):
     """fault: {"after": k, "efail": j, "kind": ...} - the link fails at the k-th exchange
     of the round and the next j reconnections find no device; clients keep sending for
     some seconds, so that any repair work done outside a request (a background retry)
@@ -200,6 +204,16 @@ def run_round(acc, spec, rnd, rng, slow=None, fault=None, late=None, slowsend=Fa
     # `late` seconds of virtual time; should anything give up on that answer, it still
     # arrives on the stream and must not be taken for the answer to a later exchange
     dev = fresh_device(rng, "tcp" if late else "ledger")
+    if uihb_tail:
+        # uihb_tail: a uiHeartbeat that fails after the signer was left (the device does not
+        # return from the heartbeat app at once), then `uihb_tail` seconds of steady
+        # traffic: whatever the manager does about the stranded device, and whenever, it
+        # may not happen between the exchanges of somebody's request
+        dev.uihb = {"signature": der.make_sig(random.Random(1), "normal")[0],
+                    "message": b"HSM:UI:HB:" + bytes(40), "tweak": bytes(32),
+                    "pubkey": bytes(65)}
+        dev.cfg["hb_back_mode"] = 0x04
+        fault = fault or {"tolerate_only": True}
     slow = slow or (0.001 if late else None)
     nclients = rng.randint(2, spec["max_clients"]) if not slow else 3
     per = spec["per_client"] if not slow else 2
@@ -267,11 +281,22 @@ def run_round(acc, spec, rnd, rng, slow=None, fault=None, late=None, slowsend=Fa
                 byname = dict(gens)
                 plan[c] = [("state", byname["state"])] if c == 0 else \
                     [("signhash", byname["signhash"]), ("pubkey", byname["pubkey"])]
+            if uihb_tail:
+                byname = dict(gens)
+                steady = [(k, byname[k]) for k in ("state", "sign", "heartbeat", "state",
+                                                   "pubkey")]
+                plan[c] = [steady[(c + j) % len(steady)] for j in range(int(uihb_tail / 0.25))]
+                if c == 0:
+                    plan[c] = [("uihb", lambda: {"command": "uiHeartbeat", "version": 5,
+                                                 "udValue": "33" * 32})] + plan[c]
         barrier = threading.Barrier(nclients)
         ssrng = random.Random(rng.getrandbits(32))
         if slowsend:
             acc.count("slow_sender_rounds")
-        if fault:
+        if uihb_tail:
+            acc.count("failed_uiheartbeat_rounds")
+            pause = random.Random(rng.getrandbits(32))
+        elif fault:
             from ..simdev.transport import Fault
             s.bus.arm({fault["after"]: Fault(fault["kind"])})
             # efail None: the device stays unplugged until the clients fall silent and
@@ -293,7 +318,9 @@ def run_round(acc, spec, rnd, rng, slow=None, fault=None, late=None, slowsend=Fa
                 time.sleep(0.3 * c)
             t_start = time.time()
             for i, (kind, mk) in enumerate(plan[c]):
-                if fault:
+                if uihb_tail:
+                    time.sleep(0.15 + pause.random() * 0.2)
+                elif fault:
                     # three quick requests each (the fault and the failed reconnections
                     # happen here), then every client stays silent for `gap` seconds with
                     # the device back, then traffic resumes
@@ -474,6 +501,8 @@ def run_shard(spec, acc):
         run_round(acc, spec, 1000 + k, rng, slow=total)
     for k in range(spec.get("slowsend_rounds", 0)):
         run_round(acc, dict(spec, max_clients=5, per_client=3), 4000 + k, rng, slowsend=True)
+    for k, d in enumerate(spec.get("uihb_tail", [])):
+        run_round(acc, dict(spec, max_clients=3), 5000 + k, rng, uihb_tail=d)
     for k, d in enumerate(spec.get("late", [])):
         acc.count("late_answer_rounds_over_tcp")
         run_round(acc, spec, 3000 + k, rng, late=d)
